@@ -152,6 +152,48 @@ pub fn gen(out: &mut dyn Write, seed: u64, thorough: bool) {
             writeln!(out, "O oracle {} => ok", orc).unwrap();
         }
     }
+    // 3a. whole-line deviations of a valid rendering: every finder / clock / alignment line (for small
+    // symbols every row and every column) inverted as a whole (a clock track with the opposite phase, a
+    // solid bar turned light), rotated by one module, set all dark, set all light
+    let mut n_lines = 0usize;
+    for (si, s) in sizes.iter().enumerate() {
+        let inf = vh::size_info(*s);
+        let n = inf.num_data_codewords + inf.num_ecc_blocks * inf.num_ecc_per_block;
+        let cw: Vec<u8> = (0..n).map(|_| rng.byte()).collect();
+        let (bits, w) = render(*s, &cw);
+        let h = bits.len() / w;
+        let rw = w / (inf.extra_vertical_alignments + 1);
+        let rh = h / (inf.extra_horizontal_alignments + 1);
+        let (rows, cols): (Vec<usize>, Vec<usize>) = if thorough || w * h <= 700 {
+            ((0..h).collect(), (0..w).collect())
+        } else {
+            let mut r = vec![0, 1, h - 2, h - 1];
+            let mut c = vec![0, 1, w - 2, w - 1];
+            for a in 1..=inf.extra_horizontal_alignments { r.push(a * rh - 1); r.push(a * rh); }
+            for a in 1..=inf.extra_vertical_alignments { c.push(a * rw - 1); c.push(a * rw); }
+            (r, c)
+        };
+        let mut lines: Vec<Vec<usize>> = rows.iter().map(|r| (0..w).map(|j| r * w + j).collect()).collect();
+        lines.extend(cols.iter().map(|c| (0..h).map(|i| i * w + c).collect::<Vec<usize>>()));
+        for line in lines {
+            for variant in 0..4 {
+                let mut b = bits.clone();
+                match variant {
+                    0 => for p in &line { b[*p] = !bits[*p]; },
+                    1 => for (q, p) in line.iter().enumerate() { b[*p] = bits[line[(q + 1) % line.len()]]; },
+                    2 => for p in &line { b[*p] = true; },
+                    _ => for p in &line { b[*p] = false; },
+                }
+                if b == bits { continue; }
+                let (ans, orc) = parse(&b, w);
+                writeln!(out, "P parse {} {} => {}", w, pack_bits(&b), ans).unwrap();
+                writeln!(out, "O oracle {} => ok", orc).unwrap();
+                n_lines += 1;
+            }
+        }
+        let _ = si;
+    }
+    writeln!(out, "# whole_line_deviations {}", n_lines).unwrap();
     // 3b. a valid rendering followed by stray pixels / with pixels missing at the end / one more row
     for (si, s) in sizes.iter().enumerate() {
         let inf = vh::size_info(*s);
